@@ -36,21 +36,21 @@ def wkb_pipeline(run, focus):
     if focus == "C05":
         p = os.path.join(out, "GenC.cfg")
         with open(p, "w") as f:
-            f.write("SPECIFICATION GenSpec\nCHECK_DEADLOCK FALSE\nCONSTANTS\n  L = %d\n  LG = %d\n  Mode = \"codec\"\n  MaxReads = 0\n  MaxDepth = 0\n  WideN = %s\n  WideB = %s\n  HexLen = 0\n" % (L, LG, wn, wb))
+            f.write("SPECIFICATION GenSpec\nCHECK_DEADLOCK FALSE\nCONSTANTS\n  L = %d\n  LG = %d\n  Mode = \"codec\"\n  MaxReads = 0\n  MaxDepth = 0\n  WideN = %s\n  WideB = %s\n  HexLen = 0\n  DeepD = %s\n" % (L, LG, wn, wb, "{40, 1025}" if quick else "{33, 65, 129, 201, 257, 513, 1025, 2049}"))
         cp = os.path.join(out, "codec.ndjson")
-        run.gen("gen_codec", SPEC, "WKBGen", p, cp, workers=1, timeout=3000)
+        run.gen("gen_codec", SPEC, "WKBGen", p, cp, workers=1, timeout=3000, require=["enc", "dec", "deep"])
         cases += vlib.read_ndjson(cp)
     else:
         p = os.path.join(out, "GenH.cfg")
         with open(p, "w") as f:
-            f.write("SPECIFICATION GenSpec\nCHECK_DEADLOCK FALSE\nCONSTANTS\n  L = 0\n  LG = 0\n  Mode = \"hostile\"\n  WideN = {}\n  WideB = {}\n  HexLen = 0\n  MaxReads = %d\n  MaxDepth = 3\nINVARIANT EmitHostile\n" % (4 if quick else 6))
+            f.write("SPECIFICATION GenSpec\nCHECK_DEADLOCK FALSE\nCONSTANTS\n  L = 0\n  LG = 0\n  Mode = \"hostile\"\n  WideN = {}\n  WideB = {}\n  HexLen = 0\n  DeepD = {}\n  MaxReads = %d\n  MaxDepth = 3\nINVARIANT EmitHostile\n" % (4 if quick else 6))
         cp = os.path.join(out, "hostile.ndjson")
         run.gen("gen_hostile", SPEC, "WKBGen", p, cp, workers=4, timeout=3000)
         cases += vlib.read_ndjson(cp)
         # members of a foreign type inside multi-geometries (complete geometries, so no bounded read sequence reaches them)
         p = os.path.join(out, "GenF.cfg")
         with open(p, "w") as f:
-            f.write("SPECIFICATION GenSpec\nCHECK_DEADLOCK FALSE\nCONSTANTS\n  L = 0\n  LG = 0\n  Mode = \"foreign\"\n  WideN = {}\n  WideB = {}\n  HexLen = %d\n  MaxReads = 0\n  MaxDepth = 0\n" % (2 if quick else 3))
+            f.write("SPECIFICATION GenSpec\nCHECK_DEADLOCK FALSE\nCONSTANTS\n  L = 0\n  LG = 0\n  Mode = \"foreign\"\n  WideN = {}\n  WideB = {}\n  HexLen = %d\n  DeepD = {}\n  MaxReads = 0\n  MaxDepth = 0\n" % (2 if quick else 3))
         cp = os.path.join(out, "foreign.ndjson")
         run.gen("gen_foreign", SPEC, "WKBGen", p, cp, workers=1, timeout=3000)
         cases += vlib.read_ndjson(cp)
@@ -78,6 +78,8 @@ def wkb_pipeline(run, focus):
                     # non-trivial: an encode case or a valid decode case with a nested / multi element
                     if c["kind"] == "enc" and c["g"]["t"] != "Point":
                         ntriv.add(json.dumps([c["g"], c["bo"]]))
+                    elif c["kind"] == "deep":
+                        ntriv.add(json.dumps([c["leaf"], c["d"], c["bo"]]))
                     elif c["kind"] == "dec" and c.get("valid"):
                         ntriv.add(json.dumps(c.get("bytes")))
                 elif c["kind"] == "dec" and not c.get("valid"):
@@ -87,7 +89,7 @@ def wkb_pipeline(run, focus):
     run.distinct_nontrivial = len(ntriv)
     if focus == "C05":
         run.rule = ("TLC enumerates geometry trees of the seven types (member counts 0-2, nesting <= 3, eight adversarial bit patterns) x both "
-                    "byte orders for encoding and x eight per-element byte-order patterns for decoding; seeded random trees with random "
+                    "byte orders for encoding and x eight per-element byte-order patterns for decoding; chains of one-member collections up to 1025 (quick) / 2049 (thorough) deep; seeded random trees with random "
                     "bit patterns; non-trivial = an encode case of a non-Point geometry or a valid decode case; distinct = distinct input")
     else:
         run.rule = ("every terminal behaviour of the decoder automaton (reads <= bound: each count from {0,1,2,2^20,2^28,2^31-1}, bad byte "
